@@ -8,9 +8,9 @@ from ..world import World, mkbytes, blist, all_eq, as_int, check_no_exceptions, 
 PROPERTY = 'C04'
 BUDGET = {'quick': {'seconds': 1200, 'xreplay_every': 50}, 'thorough': {'seconds': 6000, 'xreplay_every': 500}}
 NONTRIVIAL = {'quick': ['accepted', 'refused', 'timeout', 'loss-while-connecting', 'loss-while-connected', 'second-connect-rejected',
-                        'duplicate-connack', 'onDisconnection']}
+                        'duplicate-connack', 'onDisconnection', 'disconnect']}
 
-KINDS = ('connack', 'advance', 'lose', 'connect-again', 'publish')
+KINDS = ('connack', 'advance', 'lose', 'connect-again', 'publish', 'subscribe', 'disconnect')
 
 
 def err():
@@ -50,9 +50,12 @@ def h_handshake(eng, params):
     lost = False
     nloss = 0
     pubs = []
+    subs = []
     for i in range(params['k']):
-        kinds = [k for k in KINDS if not (lost and k in ('connack', 'lose', 'connect-again', 'publish')) and not (c.closing and k == 'connack')
-                 and not (k == 'publish' and profile == 'subscriber')]
+        kinds = [k for k in KINDS if not (lost and k in ('connack', 'lose', 'connect-again', 'publish', 'subscribe', 'disconnect'))
+                 and not (c.closing and k == 'connack')
+                 and not (k == 'publish' and profile == 'subscriber') and not (k == 'subscribe' and profile == 'publisher')
+                 and not (k in ('subscribe', 'disconnect') and state != 'connected')]
         if state == 'refused-wait-close':
             kinds = ['lose']          # [MQTT-3.2.2-5]: the broker closes after a refusing CONNACK
         kind = params['first'] if (i == 0 and params.get('first') in kinds) else eng.choose(kinds, 'step')
@@ -87,6 +90,7 @@ def h_handshake(eng, params):
                     state = 'timed-out'
         elif kind == 'lose':
             pending_pubs = [ptr for ptr in pubs if not ptr.fired]
+            pending_subs = [x for x in subs if not x.fired]
             reason = w.lose(c, clean=bool(eng.choose(2, 'clean-close')))
             lost = True
             nloss += 1
@@ -94,6 +98,9 @@ def h_handshake(eng, params):
             eng.check(c.p.state is c.p.IDLE, 'idle-after-loss')
             state = 'idle' if state != 'connecting' else 'idle-connecting-pending'
             # pending publishes of a clean session fail now, with the reason of the loss
+            for x in pending_subs:
+                eng.check(len(x.fired) == 1 and not x.fired[0][1] and x.fired[0][2] is reason, 'subscribe-failed-before-notification',
+                          'a subscribe pending at the loss was not failed with its reason')
             for ptr in pending_pubs:
                 if as_int(clean) == 1:
                     eng.check(len(ptr.fired) == 1 and not ptr.fired[0][1] and ptr.fired[0][2] is reason, 'publish-failed-before-notification')
@@ -107,6 +114,16 @@ def h_handshake(eng, params):
             else:
                 # on a protocol whose connection is gone the call is outside this property (C18 covers its output)
                 pass
+        elif kind == 'subscribe':
+            # an established-session request pending at the loss
+            str_ = w.api(c, 'subscribe', 'sub', scen.topic(eng), 1)
+            if str_ is not None and not str_.fired:
+                subs.append(str_)
+        elif kind == 'disconnect':
+            r_, e_ = w.call(c, 'disconnect')
+            eng.check(e_ is None, 'disconnect-raised')
+            eng.count('disconnect')
+            state = 'disconnecting'
         elif kind == 'publish':
             ptr = w.api(c, 'publish', 'pub', scen.topic(eng), mkbytes(eng, [1]) if False else scen.mkbytearray(eng, [1]), qos=1)
             if ptr is not None and not ptr.fired:
@@ -118,6 +135,17 @@ def h_handshake(eng, params):
         else:
             eng.check(len(tr.fired) == 1, 'fired-exactly-once', 'connect Deferred fired %d times (expected %r)' % (len(tr.fired), expect),
                       sig='fired-exactly-once:%s:%d' % (expect[0], len(tr.fired)))
+    # ---- a transport asked to close does close
+    if not lost and (c.t.lose_called or c.t.abort_called):
+        st = w.begin_step('lose')
+        pending_subs = [x for x in subs if not x.fired]
+        reason = w.lose(c, clean=bool(c.t.lose_called))
+        lost = True
+        nloss += 1
+        eng.check(c.p.state is c.p.IDLE, 'idle-after-loss')
+        for x in pending_subs:
+            eng.check(len(x.fired) == 1 and not x.fired[0][1] and x.fired[0][2] is reason, 'subscribe-failed-before-notification',
+                      'a subscribe pending at the loss was not failed with its reason')
     # ---- run the clock out: timeout must have happened if nothing else did
     w.begin_step('run-out')
     w.advance(keepalive + 11)
@@ -172,7 +200,7 @@ META = {
     'rule': 'history = connect(keepalive, clean symbolic) followed by k free steps; one path per feasible combination of step kinds and of the '
             'branch classes of their symbolic data (return code, session byte, elapsed time vs. deadline); non-trivial = counters accepted, refused, timeout, losses, rejected second connect',
     'bounds': {'quick': 'profiles x versions; keepalive symbolic 1..65535 (refused / timed-out / lost handshakes) and 0, 5 (all outcomes), clean flag, CONNACK session byte 0..255 and return code 0..255, advance symbolic in 0..100000 s (0..1000 s when the keepalive loop can run); '
-                        'k=3 free steps from {CONNACK, advance, loss (clean/unclean), second connect(), QoS1 publish}; then keepalive+11 s and 1000 s',
+                        'k=3 free steps from {CONNACK, advance, loss (clean/unclean), second connect(), QoS1 publish, subscribe, disconnect()}; then keepalive+11 s and 1000 s',
                'thorough': 'k=5'},
     'stubs': ['fake transport with asynchronous loss', 'twisted task.Clock (exact reals)', 'jitter symbolic in [0,1)'],
     'outside': ['accepted handshakes with keepalive other than 0, 5 (thorough: 0, 1, 5, 65535)', 'jitter other than a fixed sequence', 'histories longer than k free steps', 'connect() on a protocol object whose connection is already lost', 'float rounding of time'],
